@@ -458,7 +458,9 @@ class C14(runner.Check):
             'three machines: a twin nobody ever exported/observed, the original after all exports, the rebuilt one; '
             'user triggers named like automatic ones (to_<state>) when auto_transitions is off; callback programs '
             '(markup reads and dirty-setting modifications issued from inside state/transition callbacks while the '
-            'models move); Enum state definitions (plain, IntEnum, str mix-in, StrEnum); distinct = different '
+            'models move); Enum state definitions (plain, IntEnum, str mix-in, StrEnum); removal of locally declared '
+            'triggers; option oracle on AsyncGraphMachine/HierarchicalAsyncGraphMachine (queued False/True/model); '
+            'distinct = different '
             'description')
     trusted = ('hand-written model lean/Model/Markup.lean tied to /repo by equality of the encoded markup '
                '(export), of the rebuilt object state (import) and of the re-exported markup on every generated case',
